@@ -107,8 +107,8 @@ def main():
         r = validate(outdir, pid, k)
         print(json.dumps(r, indent=1))
         if r.get("ok"):
-            name = "%s-%s%d" % (pid, os.path.basename(outdir.rstrip("/")).replace("-out", "").replace(pid, "").strip("-") or "a", k)
-            name = name.replace("--", "-")
+            batch = os.environ.get("SEED_BATCH", "a")
+            name = "%s-%s%d" % (pid, batch, k)
             d = os.path.join("/verif/seeded", name)
             os.makedirs(d, exist_ok=True)
             shutil.copy(r["patch"], os.path.join(d, "patch.diff"))
